@@ -485,7 +485,6 @@ run_case(long idx, const casecfg *cc)
 	// the socket itself if no worker uses it, have nothing to respond to
 	{
 		worker pw = { .idx = 99, .is_sock = false, .ctx = pc };
-		long   target = atomic_load(&G.consumed[0]);
 		for (int it = 0; it < 200000; it++) {
 			long done = 0, total = 0;
 			for (int i = 0; i < cc->npeers; i++) {
@@ -504,7 +503,6 @@ run_case(long idx, const casecfg *cc)
 			if (anyfail) break;
 			vf_usleep(300);
 		}
-		(void) target;
 	}
 	for (int i = 0; i < cc->npeers; i++) pthread_join(pr[i].thr, NULL);
 	// nothing more may arrive on any connection (a misrouted response or a
